@@ -1,12 +1,17 @@
 //! rvharness — correspondence harness: drives the REAL redis-rust code in-process, writes the
 //! op lines for the Lean model driver and the implementation's canonical answers, and
 //! evaluates each property directly on the implementation (failing-input search).
+mod alloc;
 mod c07;
+mod c15;
 mod enc;
 mod out;
 mod rng;
 
 use std::path::PathBuf;
+
+#[global_allocator]
+static GLOBAL: alloc::Counting = alloc::Counting;
 
 pub struct Args {
     pub seed: u64,
@@ -21,6 +26,10 @@ fn main() {
     if argv.len() < 2 {
         eprintln!("usage: rvharness <Cxx> [--seed S] [--n N] [--out DIR] [--tier quick|thorough] [--replay FILE]");
         std::process::exit(2);
+    }
+    if argv[1] == "--c15-child" {
+        c15::child(&argv[2..]);
+        return;
     }
     let prop = argv[1].to_uppercase();
     let mut a = Args {
@@ -49,6 +58,7 @@ fn main() {
     // the real code logs through `tracing`; keep stdout/stderr quiet
     match prop.as_str() {
         "C07" => c07::run(&a),
+        "C15" => c15::run(&a),
         _ => {
             eprintln!("no harness for {}", prop);
             std::process::exit(2);
